@@ -9,7 +9,31 @@ from .common import gen_cuts, gen_knobs, gen_transport, pick
 from .hist import Index
 
 PHASE = ("connect", "start", "finish")
-WORK = ("device_info", "list_entities", "switch_command", "subscribe_states", "subscribe_logs", "send", "request", "sub", "ble.read", "ble.write")
+WORK = ("device_info", "list_entities", "switch_command", "subscribe_states", "subscribe_logs", "send", "request", "sub", "ble.read", "ble.write", "cmd")
+CMDS = [
+    {"name": "climate_command", "kwargs": {"key": 1, "preset": "away"}},
+    {"name": "climate_command", "kwargs": {"key": 1, "target_temperature": 21.5}},
+    {"name": "cover_command", "kwargs": {"key": 1, "position": 0.5}},
+    {"name": "cover_command", "kwargs": {"key": 1, "stop": True}},
+    {"name": "light_command", "kwargs": {"key": 1, "state": True, "brightness": 0.5}},
+    {"name": "fan_command", "kwargs": {"key": 1, "state": True}},
+    {"name": "button_command", "kwargs": {"key": 1}},
+    {"name": "lock_command", "kwargs": {"key": 1, "command": 1, "code": "1234"}},
+    {"name": "text_command", "kwargs": {"key": 1, "state": "x"}},
+    {"name": "number_command", "kwargs": {"key": 1, "state": 1.5}},
+    {"name": "select_command", "kwargs": {"key": 1, "state": "a"}},
+    {"name": "siren_command", "kwargs": {"key": 1, "state": True}},
+    {"name": "media_player_command", "kwargs": {"key": 1, "volume": 0.5}},
+    {"name": "valve_command", "kwargs": {"key": 1, "position": 0.5}},
+    {"name": "alarm_control_panel_command", "kwargs": {"key": 1, "command": 0, "code": "1"}},
+    {"name": "request_single_image", "kwargs": {}},
+    {"name": "date_command", "kwargs": {"key": 1, "year": 2024, "month": 1, "day": 2}},
+    {"name": "time_command", "kwargs": {"key": 1, "hour": 1, "minute": 2, "second": 3}},
+    {"name": "datetime_command", "kwargs": {"key": 1, "epoch_seconds": 1700000000}},
+    {"name": "update_command", "kwargs": {"key": 1, "command": 1}},
+    {"name": "send_home_assistant_state", "kwargs": {"entity_id": "a.b", "attribute": None, "state": "on"}},
+    {"name": "send_voice_assistant_audio", "kwargs": {"data": "00"}},
+]
 
 
 def wedge_oracle(ix: Index, scn: dict) -> list[Violation]:
@@ -93,7 +117,11 @@ def gen_c19(rng: random.Random) -> dict:
         elif r < 0.74:
             steps.append({"do": "sleep", "d": pick(rng, [0.0, 0.01, 0.5, 6.0])})
         else:
-            steps.append(pick(rng, [{"do": "device_info"}, {"do": "switch_command", "key": 1, "state": True}, {"do": "subscribe_states"}, {"do": "list_entities"}, {"do": "send", "msgs": [["CameraImageRequest", {"single": True}]]}]))
+            if rng.random() < 0.4:
+                c = pick(rng, CMDS)
+                steps.append({"do": "cmd", "name": c["name"], "kwargs": dict(c["kwargs"])})
+            else:
+                steps.append(pick(rng, [{"do": "device_info"}, {"do": "switch_command", "key": 1, "state": True}, {"do": "subscribe_states"}, {"do": "list_entities"}, {"do": "send", "msgs": [["CameraImageRequest", {"single": True}]]}]))
     steps.append({"do": "sleep", "d": 1.0})
     steps.append({"do": "start"})  # the final probe: must never be refused if idle
     steps.append({"do": "disconnect", "force": True})
